@@ -228,7 +228,44 @@ def check_initial_point(ctx):
     ctx.add('initial_enthalpy_point', ev, nt)
 
 
+def check_raw(ctx):
+    """The low-level function on arrays: container types of the inputs, inputs left untouched, the same arrays used again."""
+    from pygaps.characterisation.isosteric_enth import isosteric_enthalpy_raw
+    ev = nt = 0
+    for dH in (5.0, 20.0, 40.0):
+        for temps in ([260.0, 300.0, 340.0], [340.0, 300.0, 260.0], [210.0, 225.0, 330.0, 395.0], [280.0, 320.0]):
+            nm = 4.0
+            loads = numpy.array([0.5, 1.0, 2.0, 3.0])
+            # Langmuir with a van 't Hoff affinity: p(n, T) = n / (K(T) (n_m - n))
+            P = numpy.array([[n / (2.0 * kfactor(dH, T) * (nm - n)) for T in temps] for n in loads])
+            for tkind, mkT in (('list', lambda: list(temps)), ('tuple', lambda: tuple(temps)), ('ndarray float64', lambda: numpy.array(temps, dtype=float)),
+                               ('ndarray int64', lambda: numpy.array(temps, dtype='int64')), ('slice view of a longer array', lambda: numpy.array(temps + [999.0], dtype=float)[:len(temps)])):
+                for pkind, mkP in (('ndarray', lambda: P.copy()), ('list of lists', lambda: P.tolist())):
+                    Targ, Parg = mkT(), mkP()
+                    keepT = numpy.array(Targ, dtype=float).copy()
+                    keepP = numpy.array(Parg, dtype=float).copy()
+                    results = [core.call(isosteric_enthalpy_raw, Parg, Targ) for _ in range(3)]      # the SAME argument objects, three times
+                    ev += 1
+                    nt += 1
+                    bad = None
+                    for i, r in enumerate(results):
+                        if not r.ok:
+                            bad = f'call {i + 1} {r.brief()}'
+                            break
+                        got = numpy.asarray(r.value[0], dtype=float)
+                        if got.shape != (len(loads),) or numpy.max(numpy.abs(got - dH) / dH) > 1e-8:
+                            bad = f'call {i + 1} with the same argument objects returns {got} instead of {dH} kJ/mol at every loading'
+                            break
+                    if bad is None and not (numpy.array_equal(numpy.array(Targ, dtype=float), keepT) and numpy.array_equal(numpy.array(Parg, dtype=float), keepP)):
+                        bad = f'the arguments were modified: temperatures {keepT} -> {numpy.array(Targ, dtype=float)}'
+                    if bad:
+                        ctx.violate(core.make_violation({'check': 'raw-function', 'temperatures': tkind.split(' ')[0], 'pressures': pkind.split(' ')[0]},
+                                                        f'isosteric_enthalpy_raw(pressures as {pkind}, temperatures {temps} as {tkind}), dH={dH}: {bad}', {'dH': dH, 'temperatures': temps}))
+    ctx.add('raw_function', ev, nt)
+
+
 def run(ctx):
+    check_raw(ctx)
     jobs = []
     for gen in GENERATORS:
         for dH in (5.0, 20.0, 40.0, 60.0):
